@@ -23,19 +23,21 @@ var beyondInt64 = regexp.MustCompile(`[0-9]{19,}`)
 type repair struct {
 	key     string
 	class   string
-	pySide  bool
+	pySide  bool // the rewriting is applied to the python3 text only (otherwise to the asp text only)
+	both    bool // … or to both texts
 	apply   func(o *PrintOpts)
 	present func(f *features) bool // class predicate: can the program exhibit this root cause at all?
 }
 
 var repairs = []repair{
-	{"G", "ops-right-operand-swallows-rest", false, func(o *PrintOpts) { o.Tree = "py" }, func(f *features) bool { return f.swallow }},
-	{"M", "int-mod-go-sign", false, func(o *PrintOpts) { o.Mod = true }, func(f *features) bool { return f.mods > 0 }},
-	{"A", "list-add-appends-in-place", false, func(o *PrintOpts) { o.AddCopy = true }, func(f *features) bool { return f.adds > 0 || f.augs > 0 }},
-	{"S", "slice-shares-backing-array", false, func(o *PrintOpts) { o.SliceCopy = true }, func(f *features) bool { return f.slices > 0 }},
-	{"SR", "sorted-reversed-in-place", false, func(o *PrintOpts) { o.SortCopy = true }, func(f *features) bool { return f.sorts > 0 }},
-	{"K", "constant-list-literal-shared", false, func(o *PrintOpts) { o.ConstFresh = true }, func(f *features) bool { return f.constLists > 0 }},
-	{"R", "augassign-rebinds-list", true, func(o *PrintOpts) { o.AugRebind = true }, func(f *features) bool { return f.augs > 0 || f.appends > 0 }},
+	{"G", "ops-right-operand-swallows-rest", false, false, func(o *PrintOpts) { o.Tree = "py" }, func(f *features) bool { return f.swallow }},
+	{"M", "int-mod-go-sign", false, false, func(o *PrintOpts) { o.Mod = true }, func(f *features) bool { return f.mods > 0 }},
+	{"A", "list-add-appends-in-place", false, false, func(o *PrintOpts) { o.AddCopy = true }, func(f *features) bool { return f.adds > 0 || f.augs > 0 }},
+	{"S", "slice-shares-backing-array", false, false, func(o *PrintOpts) { o.SliceCopy = true }, func(f *features) bool { return f.slices > 0 }},
+	{"SR", "sorted-reversed-in-place", false, false, func(o *PrintOpts) { o.SortCopy = true }, func(f *features) bool { return f.sorts > 0 }},
+	{"K", "constant-list-literal-shared", false, false, func(o *PrintOpts) { o.ConstFresh = true }, func(f *features) bool { return f.constLists > 0 }},
+	{"R", "augassign-rebinds-list", true, false, func(o *PrintOpts) { o.AugRebind = true }, func(f *features) bool { return f.augs > 0 || f.appends > 0 }},
+	{"U", "str-case-mapping-single-rune", false, true, func(o *PrintOpts) { o.FoldCase = true }, func(f *features) bool { return f.sharpS && f.caseCalls > 0 }},
 }
 
 type harness struct {
@@ -102,35 +104,55 @@ func usesTrueDiv(p []*S) bool {
 
 // agrees runs the program with the given set of repairs on both sides and compares.
 func (h *harness) agrees(prog []*S, mode string, set map[string]bool) bool {
+	ok, _ := h.agreesOut(prog, mode, set)
+	return ok
+}
+
+// agreesOut also returns what the real interpreter printed for the repaired text.
+func (h *harness) agreesOut(prog []*S, mode string, set map[string]bool) (bool, string) {
 	var ao, po PrintOpts
 	for _, rp := range repairs {
 		if set[rp.key] {
-			if rp.pySide {
+			if rp.pySide || rp.both {
 				rp.apply(&po)
-			} else {
+			}
+			if !rp.pySide || rp.both {
 				rp.apply(&ao)
 			}
 		}
 	}
 	a := h.runAsp(mode, Print(prog, ao))
 	if a == "ERR" {
-		return false
+		return false, a
 	}
-	return a == h.runPy(Print(prog, po))
+	return a == h.runPy(Print(prog, po)), a
 }
 
 // classify attributes a disagreement to root causes: first a single repair, then the minimal subset of all.
-func (h *harness) classify(prog []*S, mode string, f *features) []string {
+func (h *harness) classify(prog []*S, mode string, f *features, aspOut string) []string {
 	var cands []repair
 	for _, rp := range repairs {
 		if rp.present(f) {
 			cands = append(cands, rp)
 		}
 	}
+	var failing []repair
+	unchanged := 0
 	for _, rp := range cands {
-		if h.agrees(prog, mode, map[string]bool{rp.key: true}) {
+		ok, out := h.agreesOut(prog, mode, map[string]bool{rp.key: true})
+		if ok {
 			return []string{rp.class}
 		}
+		if out == "ERR" && !rp.pySide {
+			failing = append(failing, rp)
+		} else if out == aspOut {
+			unchanged++
+		}
+	}
+	// the repaired program leaves the part of the language the interpreter can evaluate (e.g. a slice a[2:-2]
+	// of a short list) and no other repair has any effect: the one repair that changes the outcome is the cause
+	if len(failing) == 1 && unchanged == len(cands)-1 {
+		return []string{failing[0].class}
 	}
 	all := map[string]bool{}
 	for _, rp := range cands {
@@ -160,6 +182,14 @@ func (h *harness) runOp(op string) {
 	r := h.r
 	f := strings.SplitN(op, " ", 3)
 	switch {
+	case len(f) == 3 && f[0] == "aspo" && (f[1] == "b" || f[1] == "d"):
+		// oracle only: a program outside the modelled core (non-ASCII text); nothing is sent to the Lean driver
+		prog, ok := DecodeProg(f[2])
+		if !ok {
+			return
+		}
+		src := Print(prog, PrintOpts{})
+		h.oracle(op, prog, f[1], src, h.runAsp(f[1], src), featuresOf(prog))
 	case len(f) == 3 && f[0] == "asp" && (f[1] == "b" || f[1] == "d"):
 		prog, ok := DecodeProg(f[2])
 		if !ok {
@@ -219,7 +249,7 @@ func (h *harness) oracle(op string, prog []*S, mode, src, aspOut string, ft *fea
 		return
 	}
 	r.Count("outcome:disagree")
-	for _, cls := range h.classify(prog, mode, ft) {
+	for _, cls := range h.classify(prog, mode, ft, aspOut) {
 		r.OracleFail(cls, op, "asp="+aspOut+" python3="+pyOut+" source="+strings.ReplaceAll(src, "\n", "\\n"))
 	}
 }
@@ -279,7 +309,7 @@ func (h *harness) program(kind string, prog []*S, modes string, model bool) {
 		src := Print(prog, PrintOpts{})
 		for _, m := range modes {
 			out := h.runAsp(string(m), src)
-			h.oracle("asp "+string(m)+" "+sx, prog, string(m), src, out, ft)
+			h.oracle("aspo "+string(m)+" "+sx, prog, string(m), src, out, ft)
 		}
 		return
 	}
@@ -294,6 +324,7 @@ func (h *harness) program(kind string, prog []*S, modes string, model bool) {
 func MainC16() {
 	r := lib.Start()
 	defer r.Finish()
+	reseed(r)
 	r.Rule = "asp evaluated the program without error and the program has at least 8 syntax nodes; distinct by op line"
 	scratch := os.Getenv("VERIF_SCRATCH")
 	if scratch == "" {
@@ -316,21 +347,21 @@ func MainC16() {
 	r.Exhaust = true
 
 	// 2. random programs
-	for i := 0; i < r.N(700, 12000); i++ {
+	for i := 0; i < r.N(450, 12000); i++ {
 		g := NewG(r.Rng)
 		g.div = r.Rng.Chance(10)
 		h.program("chain-random", g.ChainProgram(), "bd", true)
 	}
-	for i := 0; i < r.N(500, 9000); i++ {
+	for i := 0; i < r.N(450, 9000); i++ {
 		g := NewG(r.Rng)
 		h.program("scenario", g.Scenario(i%nScenarios), "bd", true)
 	}
-	for i := 0; i < r.N(900, 16000); i++ {
+	for i := 0; i < r.N(600, 16000); i++ {
 		g := NewG(r.Rng)
 		h.program("program", g.Program(), "bd", true)
 	}
 	// 3. outside the modelled core: non-ASCII text (oracle only)
-	for i := 0; i < r.N(150, 2500); i++ {
+	for i := 0; i < r.N(100, 2500); i++ {
 		g := NewG(r.Rng)
 		g.ascii = false
 		h.program("program-nonascii", g.Program(), "bd", false)
